@@ -92,6 +92,12 @@ class Opaque:
     def __bool__(self):
         return bool(SymBool(self.truthy))
 
+    # a logger stand-in can be logged to (code under test may report through the logger in force)
+    def debug(self, *a, **k): pass
+    info = warning = error = critical = exception = log = debug
+
+    def isEnabledFor(self, level): return False
+
     def eqvar(self, o):
         if o is self:
             return z3.BoolVal(True)
